@@ -116,9 +116,9 @@ def run(ctx):
 # ---------------------------------------------------------------------------------------------
 # task level
 TASK_REQ = ['Base.Show', 'Model.Retry', 'Spec.RetrySpec', 'Model.RetryTask']
-TASK_T = 'N * N * list tevent * list op'
-TASK_FN = ('fun c : N * N * list tevent * list op => let \'(mn, mx, evs, ops) := c in '
-           '(match trun TcpClient (tinit mn mx) evs with None => "PANIC" | Some (_, o) => '
+TASK_T = 'variant * N * N * list tevent * list op'
+TASK_FN = ('fun c : variant * N * N * list tevent * list op => let \'(v, mn, mx, evs, ops) := c in '
+           '(match trun v (tinit mn mx) evs with None => "PANIC" | Some (_, o) => '
            'show_list (fun x => x) "," (flat_map (fun x => match x with OAnnounce AfterFailedConnect d => ["F" ++ show_N d] | OAnnounce AfterDisconnect d => ["D" ++ show_N d] | _ => [] end) o) end) '
            '++ "|" ++ show_list show_N "," (somes (spec mn mx 0 ops))')
 MS = 10**6
@@ -128,11 +128,16 @@ def task_cases(ctx, n):
     r = ctx.rng
     certs = os.path.join(vlib.REPO, 'certs', 'ca_chain')
     cases = [('tcp', 20, 70, 'rrrrcsr'), ('tcp', 20, 70, 'crcr'), (f'tls:{certs}', 20, 70, 'rcrcr'), ('tcp', 10, 10, 'rrs'), ('tcp', 20, 70, 's'),
-             ('tcp', 20, 70, 'rrrrrr'), (f'tls:{certs}', 15, 100, 'cccc'), ('tcp', 5, 40, 'rrrrsrrrr')]
+             ('tcp', 20, 70, 'rrrrrr'), (f'tls:{certs}', 15, 100, 'cccc'), ('tcp', 5, 40, 'rrrrsrrrr'),
+             ('rtu', 20, 70, 'rrror'), ('rtu', 20, 70, 'oro'), ('rtu', 10, 40, 'rrrrr'), ('rtu', 20, 70, 'o')]
     while len(cases) < n:
-        tls = r.random() < 0.3
+        w = r.random()
+        tls = w < 0.25
         mn, mx = r.choice([(20, 70), (10, 10), (15, 100), (5, 40), (30, 30), (8, 64), (25, 60)])
         ln = r.choice([2, 3, 4, 5, 6, 7, 8])
+        if w > 0.75:
+            cases.append(('rtu', mn, mx, ''.join(r.choices('ro', weights=(5, 2), k=ln))))
+            continue
         script = ''.join(r.choices('rc' if tls else 'rcs', weights=(5, 2) if tls else (5, 1, 2), k=ln))
         cases.append((f'tls:{certs}' if tls else 'tcp', mn, mx, script))
     return cases
@@ -149,7 +154,8 @@ def task_to_coq(c):
         else:
             evs += ['AttemptOk', 'Lost', 'Elapsed']  # connected, then lost
             ops += ['Reset', 'Disc']
-    return f'({mn * MS}, {mx * MS}, [{";".join(evs)}], [{";".join(ops)}])'
+    model_variant = 'SerialClient' if variant == 'rtu' else 'TcpClient'
+    return f'({model_variant}, {mn * MS}, {mx * MS}, [{";".join(evs)}], [{";".join(ops)}])'
 
 
 def task_eval(ctx, cases):
@@ -209,24 +215,25 @@ def run_task_level(ctx):
         js = task_judge(im[0], bo[0])
         if not js or js[0] != key:
             small, im, bo, js = c, [i], [b], j
-        ctx.violation(key, f'{small[0].split(":")[0]} client task, retry {small[1]}..{small[2]} ms, connect outcomes "{small[3]}" (r=refused c=accepted+closed s=served): {js[1]}',
+        ctx.violation(key, f'{small[0].split(":")[0]} client task, retry {small[1]}..{small[2]} ms, connect outcomes "{small[3]}" (r=refused/no device c=accepted+closed s=served o=port opened then lost): {js[1]}',
                       {'task_cases': [list(small)], 'impl': im[0], 'model|spec': bo[0], 'original_case': list(c)},
                       no_failing_input=(key == 'task.model-differs-from-impl'))
     ctx.oblige('correspondence:task-level-delays', bad == 0, f'{bad} of {len(cases)} scenarios differ')
-    tcls = {'tcp': 0, 'tls': 0, 'with_served': 0, 'with_accept_close': 0, 'three_refused_in_a_row': 0, 'capped': 0, 'announcements': 0}
+    tcls = {'tcp': 0, 'tls': 0, 'rtu': 0, 'with_port_opened': 0, 'with_served': 0, 'with_accept_close': 0, 'three_refused_in_a_row': 0, 'capped': 0, 'announcements': 0}
     for c, i in zip(cases, impl):
-        tcls['tls' if c[0].startswith('tls') else 'tcp'] += 1
+        tcls['tls' if c[0].startswith('tls') else c[0]] += 1
+        tcls['with_port_opened'] += 'o' in c[3]
         tcls['with_served'] += 's' in c[3]
         tcls['with_accept_close'] += 'c' in c[3]
         tcls['three_refused_in_a_row'] += 'rrr' in c[3]
         tcls['capped'] += f'F{c[2] * MS}' in i
         tcls['announcements'] += len([f for f in i.split(',') if f])
     if not ctx.replay:
-        ctx.oblige('task-generator-reaches-expected-classes', all(tcls[k] >= 3 for k in ('tcp', 'tls', 'with_served', 'with_accept_close', 'three_refused_in_a_row', 'capped')), str(tcls))
+        ctx.oblige('task-generator-reaches-expected-classes', all(tcls[k] >= 3 for k in ('tcp', 'tls', 'rtu', 'with_port_opened', 'with_served', 'with_accept_close', 'three_refused_in_a_row', 'capped')), str(tcls))
     ctx.coverage['task_level'] = {
         'scenarios': len(cases),
         'distinct_nontrivial': len(set(c for c in cases if len(c[3]) >= 2)),
-        'rule': 'scenario = (tcp|tls client task, min ms, max ms, one connect outcome per attempt: r refused, c accepted then closed (tls: failed handshake), s served one request then closed); seeded PRNG after a fixed list; non-trivial = at least two attempts',
+        'rule': 'scenario = (tcp|tls|rtu client task, min ms, max ms, one connect outcome per attempt: r refused / device missing, c accepted then closed (tls: failed handshake), s served one request then closed, o pty opened then its master closed); seeded PRNG after a fixed list; non-trivial = at least two attempts',
         'input_classes': tcls,
         'samples': [list(c[:1]) + list(c[1:]) + [i] for c, i in list(zip(cases, impl))[:4]],
     }
